@@ -98,8 +98,14 @@ pub fn run(o: &Opts) -> Report {
             lines.push(format!("op {} write {} {}", sb, enc_str("/dst/mv.old"), enc_bytes(b"m")));
             lines.push(format!("op {} create_dir {}", sb, enc_str("/dst/copy2")));
             lines.push(format!("op {} write {} {}", sb, enc_str("/dst/copy2/z"), enc_bytes(b"z")));
+            // … and bystanders named like the temporary / staging / backup files an implementation might
+            // derive from a destination name (onefile.tmp, moved.tmp, onefile~, .onefile.swp, onefile.part,
+            // moved.bak): ordinary user files, which no transfer may touch
+            for extra in ["/dst/onefile.tmp", "/dst/moved.tmp", "/dst/onefile~", "/dst/.onefile.swp", "/dst/onefile.part", "/dst/moved.bak", "/dst/copy.tmp", "/dst/mv.tmp"] {
+                lines.push(format!("op {} write {} {}", sb, enc_str(extra), enc_bytes(extra.as_bytes())));
+            }
             let by_a: Vec<String> = ["/src2", "/src2/k", "/src.bak", "/sr"].iter().map(|s| s.to_string()).collect();
-            let by_b: Vec<String> = ["/dst/mv.old", "/dst/copy2", "/dst/copy2/z", "/dst/mv2", "/dst/m"].iter().map(|s| s.to_string()).collect();
+            let by_b: Vec<String> = ["/dst/mv.old", "/dst/copy2", "/dst/copy2/z", "/dst/mv2", "/dst/m", "/dst/onefile.tmp", "/dst/moved.tmp", "/dst/onefile~", "/dst/.onefile.swp", "/dst/onefile.part", "/dst/moved.bak", "/dst/copy.tmp", "/dst/mv.tmp"].iter().map(|s| s.to_string()).collect();
             let src_uni = sub_universe(&tree, "/src", "/src");
             let snap_line = |fs: usize, paths: &Vec<String>| format!("snap {} {}", fs, paths.iter().map(|p| enc_str(p)).collect::<Vec<_>>().join(" "));
             let mut results: Vec<String> = vec![];
@@ -176,6 +182,9 @@ pub fn run(o: &Opts) -> Report {
             if let Some(f) = &file_src {
                 refusals.push(format!("op {} copy_file {} {} {}", sa, enc_str(f), sb, enc_str("/dst/occupied")));
                 refusals.push(format!("op {} move_file {} {} {}", sa, enc_str(f), sb, enc_str("/dst/deep")));
+                // … and onto an occupant of the OTHER type: an existing destination is refused whatever it is
+                refusals.push(format!("op {} move_file {} {} {}", sa, enc_str(f), sb, enc_str("/dst/occupied")));
+                refusals.push(format!("op {} copy_file {} {} {}", sa, enc_str(f), sb, enc_str("/dst/deep")));
             }
             for l in refusals {
                 let r = exec(&mut world, l.clone(), &mut batch, &mut impl_outs);
